@@ -455,9 +455,10 @@ fn c18_read_row_cell_past_end() {
 /// `<name>_<start id>[_<language code>].exd` (decided through the format! engine model, registry.FORMAT_MODEL)
 fn page_filename_case(start: u32, li: u8) {
     let page = crate::exh::ExcelDataPagination { start_id: start, row_count: kani::any() };
-    let raw = [li];
-    let mut c = Cursor::new(&raw[..]);
-    let lang = Language::read_le(&mut c).unwrap();
+    // (the numeric ids of the variants are decided by c05_language_ids_and_codes; parsing a *symbolic* id here
+    // would open binrw's error path)
+    let lang = match li { 0 => Language::None, 1 => Language::Japanese, 2 => Language::English, 3 => Language::German, 4 => Language::French,
+        5 => Language::ChineseSimplified, 6 => Language::ChineseTraditional, _ => Language::Korean };
     let codes: [&[u8]; 8] = [b"", b"ja", b"en", b"de", b"fr", b"chs", b"cht", b"ko"];
     let got = EXD::calculate_filename("Item", lang, &page);
     // expected text, built independently: decimal digits of the start id without leading zeros
@@ -484,16 +485,15 @@ fn page_filename_case(start: u32, li: u8) {
     while i < 40 { if i < n { assert_eq!(g[i], e[i]); } i += 1; }
     core::mem::forget(got);
 }
-/// every start id below 100 000 (symbolic) x every language (symbolic)
+/// every 32-bit start id (symbolic) x every language (symbolic)
 #[kani::proof]
 #[kani::unwind(100)]
-fn c05_page_filename_ids_below_100000() {
+fn c05_page_filename_all_ids() {
     let start: u32 = kani::any();
-    kani::assume(start < 100_000);
     let li: u8 = kani::any();
     kani::assume(li < 8);
     page_filename_case(start, li);
-    kani::cover!(start >= 10_000 && li == 6);
+    kani::cover!(start >= 1_000_000_000 && li == 6);
     kani::cover!(start == 0 && li == 0);
 }
 /// wide start ids (concrete: 10 digits, the largest u32) x every language (symbolic)
